@@ -84,7 +84,12 @@ func main() {
 	}
 	if d := os.Getenv("FSDBCHECK_DUMP"); d != "" {
 		if fi := p.Func(d); fi != nil {
-			fmt.Print(p.FlatOf(fi).Dump())
+			if os.Getenv("FSDBCHECK_INL") != "" {
+				fmt.Print(p.FlatInl(fi).Dump())
+			} else {
+				fmt.Print(p.FlatOf(fi).Dump())
+			}
+			os.Exit(0)
 		} else {
 			fmt.Println("no such function", d)
 		}
